@@ -141,7 +141,7 @@ def run_shard(pid, tier, seed, shard, nshards, scale=1.0, only_case=None):
                 nontrivial.add(h)
             else:
                 trivial_seen += 1
-            if len(samples) < 4 and mod.nontrivial(case) and not failures:
+            if len(samples) < 4 and (mod.nontrivial(case) or evaluations <= 2):
                 samples.append(_shorten(case))
             for f in failures:
                 mech = None
@@ -395,6 +395,8 @@ def _validate(evidence):
         pass
     except FileNotFoundError:
         pass
+    except Exception as e:        # never let the self-check of the evidence file decide a verdict
+        print('    warning: evidence file does not validate against the schema: %s' % str(e)[:300])
 
 
 def replay(pid, path):
